@@ -40,11 +40,16 @@ import (
 
 // ---------------------------------------------------------------------------------------------- delivery
 
+// dreq is ONE invocation of Reconcile. A request whose Get fails is requeued by controller-runtime: the worker invokes
+// Reconcile again for the same request, so a request is a run of consecutive entries with the same id (the scripted Get
+// results of its attempts), and an entry that follows an entry of the same id is invoked only if that one returned an error.
 type dreq struct {
 	id   int
 	pass bool
-	get  byte // 'f' found, 'n' NotFound, 'e' other error
+	get  byte // 'f' found, 'n' NotFound; errors: 'e' plain, 'd' wraps context.DeadlineExceeded, 'c' wraps context.Canceled
 }
+
+func isErrClass(g byte) bool { return g == 'e' || g == 'd' || g == 'c' }
 
 func (q dreq) String() string {
 	p := 0
@@ -72,7 +77,7 @@ func evCode(e interface{}) int {
 }
 
 func (q dreq) ev() (int, bool) {
-	if !q.pass || q.get == 'e' {
+	if !q.pass || isErrClass(q.get) {
 		return 0, false
 	}
 	if q.get == 'n' {
@@ -83,7 +88,8 @@ func (q dreq) ev() (int, bool) {
 
 type dworld struct {
 	mu      sync.Mutex
-	byID    map[int]dreq
+	script  map[int][]dreq // per request id: the Get result of each attempt
+	att     map[int]int
 	gets    []int
 	filters []int // ids rejected by the filter
 }
@@ -92,13 +98,26 @@ func (w *dworld) Get(_ context.Context, key client.ObjectKey, obj client.Object,
 	id := idFromName(key.Name)
 	w.mu.Lock()
 	w.gets = append(w.gets, id)
-	q := w.byID[id]
+	sc := w.script[id]
+	a := w.att[id]
+	w.att[id]++
 	w.mu.Unlock()
-	switch q.get {
+	if len(sc) == 0 {
+		return errors.New("unknown object")
+	}
+	if a >= len(sc) {
+		a = len(sc) - 1
+	}
+	// errors are returned although the caller's context is alive (client-side timeout, cache not synced, …)
+	switch sc[a].get {
 	case 'n':
 		return apierrors.NewNotFound(schema.GroupResource{Resource: "configmaps"}, key.Name)
 	case 'e':
 		return errors.New("api server unavailable")
+	case 'd':
+		return fmt.Errorf("get %s: client rate limiter Wait returned an error: %w", key.Name, context.DeadlineExceeded)
+	case 'c':
+		return fmt.Errorf("get %s: informer cache not started: %w", key.Name, context.Canceled)
 	}
 	cm, ok := obj.(*apiv1.ConfigMap)
 	if !ok {
@@ -112,7 +131,7 @@ func (w *dworld) filter(nsname types.NamespacedName) (bool, string) {
 	id := idFromName(nsname.Name)
 	w.mu.Lock()
 	defer w.mu.Unlock()
-	if !w.byID[id].pass {
+	if sc := w.script[id]; len(sc) > 0 && !sc[0].pass {
 		w.filters = append(w.filters, id)
 		return false, "ignored"
 	}
@@ -170,13 +189,33 @@ func genDCase(r *rng.R, stallMs int, allowCancel bool) dcase {
 	for i := 0; i < w; i++ {
 		n := r.Range(1, 4)
 		var q []dreq
+		errClasses := []byte{'e', 'd', 'c'}
 		for k := 0; k < n; k++ {
 			d := dreq{id: i*1000 + k + 1, pass: !r.Chance(12, 100), get: 'f'}
-			switch x := r.Intn(100); {
-			case x < 30:
+			x := r.Intn(100)
+			if x < 30 {
 				d.get = 'n'
-			case x < 42:
-				d.get = 'e'
+			}
+			if x >= 88 { // the Get keeps failing: the request ends with an error (requeue budget of the test exhausted)
+				for a := r.Range(1, 2); a > 0; a-- {
+					q = append(q, dreq{id: d.id, pass: d.pass, get: rng.Pick(r, errClasses)})
+					if !d.pass {
+						break
+					}
+				}
+				continue
+			}
+			if d.pass { // transient failures of the first attempts, then the object (or NotFound)
+				t := 0
+				switch y := r.Intn(100); {
+				case y < 10:
+					t = 2
+				case y < 40:
+					t = 1
+				}
+				for ; t > 0; t-- {
+					q = append(q, dreq{id: d.id, pass: true, get: rng.Pick(r, errClasses)})
+				}
 			}
 			q = append(q, d)
 		}
@@ -216,10 +255,10 @@ func runDCase(c dcase) (line string) {
 			line = fmt.Sprintf("X panic: %v", p)
 		}
 	}()
-	w := &dworld{byID: map[int]dreq{}}
+	w := &dworld{script: map[int][]dreq{}, att: map[int]int{}}
 	for _, q := range c.qs {
 		for _, d := range q {
-			w.byID[d.id] = d
+			w.script[d.id] = append(w.script[d.id], d)
 		}
 	}
 	ch := make(chan interface{})
@@ -242,11 +281,16 @@ func runDCase(c dcase) (line string) {
 		wg.Add(1)
 		go func(i int, q []dreq) { // the controller's single worker: one Reconcile at a time, in queue order
 			defer wg.Done()
+			prevID, prevErr := -1, false
 			for k, d := range q {
+				if d.id == prevID && !prevErr {
+					continue // controller-runtime requeues a request only when Reconcile returned an error
+				}
 				func() {
 					defer func() { _ = recover() }()
 					_, err := rec.Reconcile(ctx, reconcile.Request{NamespacedName: types.NamespacedName{Namespace: "ns", Name: "obj-" + strconv.Itoa(d.id)}})
 					outs[i][k] = outcome{returned: true, err: err != nil, ms: time.Since(t0).Milliseconds()}
+					prevID, prevErr = d.id, err != nil
 				}()
 			}
 		}(i, c.qs[i])
